@@ -1002,10 +1002,11 @@ class Interp:
         return None
 
     def call_closure(self, clo, argtuple):
-        c = clo
+        c = clo; last_ptr = None
         for _ in range(6):
             c2 = unwrap_ptr(c)
             if type(c2) is Ptr:
+                last_ptr = c2                      # the pointer that leads directly to the value read next (through & / Box layers)
                 c = self.read(c2.cell, c2.path)
             else:
                 c = c2; break
@@ -1016,8 +1017,7 @@ class Interp:
             if f is None: raise Unsupported("closure body not found: " + c.loc)
             a0t = f.args[0][1]
             if a0t.startswith("&"):
-                u = unwrap_ptr(clo)
-                first = u if type(u) is Ptr else Ptr(Cell(c))
+                first = last_ptr if last_ptr is not None else Ptr(Cell(c))
             else:
                 first = c
             return self.run(f, [first] + args)
